@@ -261,6 +261,10 @@ def run(ctx):
     for _ in range(ctx.budget(80, 800)):
         n = rng.choice([1, 2, 3])
         base = [G.rand_op(rng, n) for _ in range(3)]
+        if _ % 8 == 7:        # wide registers: strings that differ on the first qubits only (more than 64 bits per string)
+            n = rng.choice([33, 40, 64, 70])
+            k0 = rng.choice([1, 2, 3])
+            base = [(tuple(G.rand_letters(rng, k0, 1.0)) + ('I',) * (n - k0 - 2) + tuple(rng.choice(['IZ', 'XI', 'II'])), 0) for _k in range(3)]
         terms = [((rng.choice(base)[0], rng.randrange(4)), complex(rng.choice(COEF + [2.0 ** -40, 2.0 ** -30, -2.0 ** -34 * 1j]))) for _ in range(rng.randrange(1, 7))]
         p = impl.poly(terms)
         try:
